@@ -567,7 +567,7 @@ def dags(rng, n, alap_share=0.3):
         for t in order:
             if rng.random() < 0.5:
                 cands = [u for u in order if pos[id(u)] < pos[id(t)] and not related(u, t) and (not u.kids or rng.random() < 0.5)]
-                cands = [u for u in cands if not u.kids]  # depend on leaves only (containers as targets: separate profile)
+                cands = [u for u in cands if not u.kids or rng.random() < 0.5]  # containers may be predecessors too
                 if cands:
                     for u in rng.sample(cands, min(len(cands), rng.choice([1, 1, 2]))):
                         gap = rng.choice([0, 0, G // 2, G, 4 * G, 86400]) if rng.random() < 0.5 else 0
